@@ -115,6 +115,7 @@ class Site:
     def __init__(self, fn, block, kind, what, operands, span_exp):
         self.fn, self.block, self.kind, self.what, self.operands, self.exp = fn, block, kind, what, operands, span_exp
         self.sig = None
+        self.key = None
         self.reason = None
 
 
@@ -149,6 +150,75 @@ def signature(site):
         ops.append(s)
     what = site.what if site.kind == "assert" else short(site.what)
     return "%s | %s | %s" % (short(f.path) if "closure" not in f.path else f.path.split("::", 1)[-1], what, " ; ".join(ops))
+
+
+_CLASS = {"index": "bounds", "index_mut": "bounds", "split_at": "bounds", "split_at_mut": "bounds", "BoundsCheck": "bounds", "get_unchecked": "bounds",
+          "DivisionByZero": "div-zero", "RemainderByZero": "div-zero"}
+
+
+def coarse_key(site):
+    """function | class of the panic condition | set of value sources of the operands.  Robust against re-spelling the
+    same computation (x[n..] vs x.split_at(n).1, temporaries, statement order) but changes when the condition involves
+    another field, parameter, constant or callee result than the one that was reviewed."""
+    f = site.fn
+    R = Resolver(f, max_depth=24)
+    leaves = set()
+
+    def walk(t, depth=0):
+        if depth > 40:
+            leaves.add("...")
+            return
+        k = t[0]
+        if k == "const":
+            v = t[2]
+            leaves.add("c:%s" % (v if not isinstance(v, tuple) else (v[1] if len(v) > 1 else v)) if not isinstance(v, (bytes, list)) else "c:bytes")
+        elif k == "param":
+            leaves.add("arg%d" % t[1])
+        elif k == "local":
+            n = t[1]
+            l = f.locals[n] if n < len(f.locals) else {}
+            if l.get("name") and l.get("name") != "self":
+                leaves.add("<%s>" % l["name"])      # loop-carried variable (unnamed temporaries carry no information)
+        elif k == "field":
+            # pure field chain over a parameter / local: one leaf
+            chain, b = [t[2]], t[1]
+            while b[0] == "field":
+                chain.append(b[2])
+                b = b[1]
+            b2 = strip(b)
+            if b2[0] == "param":
+                leaves.add("arg%d.%s" % (b2[1], ".".join(reversed(chain))))
+            else:
+                leaves.add("." + ".".join(reversed(chain)))
+                walk(b2, depth + 1)
+        elif k == "call":
+            name = short(t[1])
+            if not any(t[1].endswith(x) for x in TRANSPARENT_SUFFIX) and name.rsplit("::", 1)[-1] not in ("index", "index_mut", "branch", "from", "into", "min", "max"):
+                leaves.add("call:" + name)
+            for a in t[2]:
+                walk(a, depth + 1)
+        elif k in ("phi",):
+            for a in t[1]:
+                walk(a, depth + 1)
+        elif k == "agg":
+            for a in t[2]:
+                walk(a, depth + 1)
+        elif k == "repeat":
+            walk(t[1], depth + 1)
+            leaves.add("n:%s" % str(t[2]).strip())
+        else:
+            for a in t[1:]:
+                if isinstance(a, tuple) and a and isinstance(a[0], str):
+                    walk(a, depth + 1)
+    for o in site.operands[:3]:
+        try:
+            walk(strip_deep(R.operand(o)))
+        except RecursionError:
+            leaves.add("?")
+    what = site.what if site.kind == "assert" else _last_segment(site.what)
+    cls = _CLASS.get(what, what)
+    fn = short(f.path) if "closure" not in f.path else f.path.split("::", 1)[-1]
+    return "%s | %s | {%s}" % (fn, cls, ", ".join(sorted(leaves)))
 
 
 def _sig_str(t, f=None):
@@ -262,6 +332,11 @@ def discharge(prog, iv, site):
                 if all(tree_str(strip_deep(x)) in ("Vec::len(arg1.buffer)", "(Vec::len(arg1.buffer) Sub 1_usize)") for x in alts) and base_s.endswith(".buffer"):
                     return "drain(..n) with n = len or len - 1 of the same buffer"
         return None
+    if kind == "bounds" and len(t["args"]) == 2:
+        # buf[n..] / buf[..n] / buf.split_at(n) with n = the count returned by Read::read / Write::write on that same buf
+        why = _transfer_contract(f, R, t, b)
+        if why:
+            return why
     if kind == "bounds" and (c.endswith("::index") or c.endswith("::index_mut")):
         base_t = strip(R.operand(t["args"][0]))
         arg_t = strip(R.operand(t["args"][1]))
@@ -379,6 +454,61 @@ def _array_len(f, op, gen):
     return None
 
 
+def _root_local(f, op):
+    """the variable an operand is a (re)borrow / copy of: follows single-definition temporaries through &, &mut, *, casts"""
+    pl = op_place(op)
+    for _ in range(12):
+        if pl is None or any(e["k"] not in ("deref",) for e in pl["proj"]):
+            return None
+        n = pl["local"]
+        ds = f.defs().get(n, [])
+        if len(ds) != 1 or ds[0][0] != "stmt" or ds[0][4]["proj"]:
+            return n
+        rv = ds[0][1]
+        if rv["k"] == "ref":
+            pl = rv["place"]
+        elif rv["k"] == "use":
+            pl = op_place(rv["op"])
+        elif rv["k"] == "cast":
+            pl = op_place(rv["a"])
+        else:
+            return n
+    return None
+
+
+def _transfer_contract(f, R, t, b):
+    c = callee_of(t)
+    cnt = None
+    if c.endswith("::split_at") or c.endswith("::split_at_mut"):
+        cnt = R.operand(t["args"][1])
+    elif c.endswith("::index") or c.endswith("::index_mut"):
+        a = strip(R.operand(t["args"][1]))
+        if a[0] == "agg" and a[1][0] == "adt" and a[1][2] in ("RangeFrom", "RangeTo") and a[2]:
+            cnt = a[2][0]
+    if cnt is None:
+        return None
+    cnt = strip(cnt)
+    while cnt[0] == "cast":
+        cnt = strip(cnt[2])
+    if not (cnt[0] == "call" and (cnt[1].endswith("Read::read") or cnt[1].endswith("Write::write")) and len(cnt) > 3):
+        return None
+    rb = cnt[3]
+    rt = f.blocks[rb]["term"]
+    if rt["k"] != "call" or len(rt["args"]) != 2:
+        return None
+    r1, r2 = _root_local(f, rt["args"][1]), _root_local(f, t["args"][0])
+    if r1 is None or r1 != r2 or not f.dominates(rb, b):
+        return None
+    g = f.cfg()
+    for d in f.defs().get(r1, []):
+        db = d[2]
+        if db == b and d[0] == "call":
+            continue
+        if db in g and find_path(g, g.get(rb, []), {db}, {rb, b}) is not None and find_path(g, [db], {b}, {rb}) is not None:
+            return None
+    return "the bound is the byte count returned by %s for this very buffer (count <= len by the contract of Read / Write)" % short(cnt[1])
+
+
 def _sub_pattern(f, a, c):
     R = Resolver(f)
     ta, tc = strip_deep(R.operand(a)), strip_deep(R.operand(c))
@@ -395,6 +525,12 @@ def _sub_pattern(f, a, c):
             y = y[2]
         if m == y:
             return "m - (x % m) with the same m"
+        # x - (x % m): the remainder of an unsigned value never exceeds it
+        xv = x[2]
+        while xv[0] == "cast":
+            xv = xv[2]
+        if xv == y:
+            return "x - (x % m) with the same x"
         # (m - k) - (x % (m - k))
         if y[0] == "binop" and m == y:
             return "m - (x % m)"
@@ -497,7 +633,11 @@ def load_residue():
         return {}
     with open(RESIDUE_FILE) as fh:
         d = json.load(fh)
-    return {e["signature"]: e for e in d.get("sites", [])}
+    out = {e["signature"]: e for e in d.get("sites", [])}
+    for e in d.get("sites", []):
+        if e.get("key"):
+            out.setdefault("key:" + e["key"], e)
+    return out
 
 
 def panic_freedom(ctx, prog, rule_inv, rule_dis, kind, cfg_label=""):
@@ -525,7 +665,8 @@ def panic_freedom(ctx, prog, rule_inv, rule_dis, kind, cfg_label=""):
             stats["discharged"] += 1
             ctx.ob(rule_dis, "discharged/%s" % _key(s.sig), True, "%s cannot panic: %s" % (s.sig, why), where=s.fn.file_line(s.block), nontrivial=True)
             continue
-        ent = residue.get(s.sig)
+        s.key = coarse_key(s)
+        ent = residue.get(s.sig) or residue.get("key:" + s.key)
         if ent and kind in ent.get("roots", ["reader", "writer"]):
             stats["reviewed"] += 1
             used_residue.add(s.sig)
